@@ -41,3 +41,35 @@ func GenConfig(r Rander, kind string, nops int) *Config {
 	c.Normalize()
 	return c
 }
+
+// ShrinkConfigs proposes strictly smaller variants of a configuration: halves
+// and single-op removals of the workload, a smaller window, default geometry.
+func ShrinkConfigs(c *Config) []*Config {
+	var out []*Config
+	n := len(c.Ops)
+	cp := func(ops []Op) *Config {
+		d := *c
+		d.Ops = append([]Op(nil), ops...)
+		return &d
+	}
+	if n > 1 {
+		out = append(out, cp(c.Ops[:n/2]), cp(c.Ops[n/2:]))
+		if n <= 12 {
+			for i := 0; i < n; i++ {
+				ops := append(append([]Op(nil), c.Ops[:i]...), c.Ops[i+1:]...)
+				out = append(out, cp(ops))
+			}
+		}
+	}
+	if c.Window > 1 {
+		d := *c
+		d.Window = 1
+		out = append(out, &d)
+	}
+	if c.DriverMHz != 1000 {
+		d := *c
+		d.DriverMHz = 1000
+		out = append(out, &d)
+	}
+	return out
+}
